@@ -190,6 +190,12 @@ fn dump_adt<'tcx>(tcx: TyCtxt<'tcx>, did: DefId) -> J {
         }
         variants.push(J::obj(vec![("name", J::s(&v.name.to_string())), ("fields", J::Arr(fields))]));
     }
+    let mut discrs = Vec::new();
+    if adt.is_enum() {
+        for (vi, d) in adt.discriminants(tcx) {
+            discrs.push(J::obj(vec![("variant", J::s(&adt.variant(vi).name.to_string())), ("val", J::Num(d.val as i128))]));
+        }
+    }
     let dtor = adt.destructor(tcx).map(|d| uid(tcx, d.did));
     let self_ty = tcx.type_of(did).instantiate_identity().skip_norm_wip();
     let te = TypingEnv::post_analysis(tcx, did);
@@ -204,6 +210,7 @@ fn dump_adt<'tcx>(tcx: TyCtxt<'tcx>, did: DefId) -> J {
         ("repr_packed", J::Bool(repr.packed())),
         ("repr_int", J::Bool(repr.int.is_some())),
         ("variants", J::Arr(variants)),
+        ("discriminants", J::Arr(discrs)),
         ("destructor", dtor.map(|s| J::s(&s)).unwrap_or(J::Null)),
         ("drop_tree", J::Arr(dtors.iter().map(|s| J::s(s)).collect())),
         ("drop_tree_has_param", J::Bool(has_param)),
